@@ -82,7 +82,7 @@ func (s *Stats) distinct(set string, h uint64) {
 		m = map[uint64]struct{}{}
 		s.Sets[set] = m
 	}
-	if len(m) < 2_000_000 {
+	if len(m) < 250_000 { // cap per shard: the merged figure is then a lower bound
 		m[h] = struct{}{}
 	}
 }
